@@ -156,3 +156,28 @@ def normalization_layer(S):
 
     S.forall("box-mapped-into-unit-cube", o.f["_t"], goal)
     S.forall("box-corners-attain-the-bounds", o.f["_t"], lambda q: z3.Implies(z3.And(zreal(X.val.at([q[0], (0,)])) == bx[0], zreal(X.val.at([q[0], (1,)])) == bx[3], bx[0] < bx[1], bx[2] < bx[3]), z3.And(zreal(t.at([q[0], (0,)])) == -1, zreal(t.at([q[0], (1,)])) == 1)))
+
+
+@scenario("C08", [MODEL + "._fix_points_order", NETS["FCN"][0] + ".forward"], configs=["FCN"], bounded=BOUND + "; three variables x:2, t:1, k:1 and a history of calls on ONE model instance")
+def output_is_independent_of_the_order_used_in_earlier_calls(S):
+    """post: the same instance evaluated on the same data presented as (t,k,x), then (k,x,t), then (x,t,k) gives
+    the same output every time (no state carried from one call to the next)"""
+    I = S.I
+    sp = lambda names: __import__("functools").reduce(lambda a, b: mul(S, a, b), [S.new(RN, n, 2 if n == "x" else 1) for n in names])
+    net = S.new(NETS["FCN"][0], sp(["x", "t", "k"]), S.new(RN, "u", 1), hidden=(2,))
+    N = S.int("N", 1)
+    cols_ = {"x": S.tensor("X", [N, 2]), "t": S.tensor("T", [N, 1]), "k": S.tensor("K", [N, 1])}
+    from tpv import tshape
+
+    outs = []
+    canon = tshape.cat(I, [cols_[n].val for n in ["x", "t", "k"]], 1)
+    for j, order in enumerate((["t", "k", "x"], ["k", "x", "t"], ["x", "t", "k"], ["t", "k", "x"])):
+        data = Tensor(tshape.cat(I, [cols_[n].val for n in order], 1))
+        fixed = S.method(net, "_fix_points_order", S.new(POINTS, data, sp(order)))
+        ft = tensor_of(fixed)
+        S.ensure(f"reordering-{j}-yields-the-declared-space", list(S.getattr(fixed, "space").native.keys()) == ["x", "t", "k"])
+        S.forall(f"reordering-{j}-puts-every-variable-into-its-declared-columns", Tensor(ft), lambda q, ft=ft: zreal(ft.at(q)) == zreal(canon.at(q)))
+        outs.append(tensor_of(S.method(net, "forward", S.new(POINTS, data, sp(order)))))
+    ref = outs[2]
+    for j, o in enumerate(outs):
+        S.forall(f"call-{j}-agrees-with-the-declared-order", Tensor(o), lambda q, o=o: zreal(o.at(q)) == zreal(ref.at(q)))
